@@ -433,6 +433,16 @@ fn create_file<P1: AsRef<Path>>(
         );
         return Ok(None);
     }
+    // The file itself must not be an existing symbolic link: creating it would write
+    // through the link, possibly outside of the output directory
+    if fs::symlink_metadata(&extracted_path).is_ok_and(|metadata| metadata.file_type().is_symlink()) {
+        eprintln!(
+            " [!] Skipping file \"{}\" because {} already exists as a symbolic link",
+            fname,
+            extracted_path.display()
+        );
+        return Ok(None);
+    }
     Ok(Some((
         File::create(&extracted_path).map_err(|err| {
             eprintln!(" [!] Unable to create \"{fname}\" ({err:?})");
